@@ -17,6 +17,9 @@ def _isnum(v):
 def call_builtin(it, name, args, kwargs):
     ctx = it.ctx
     fp = ctx.fp
+    if name == 'locals':
+        # the local variables of the function being executed (used by extracted fragments: `return locals()`)
+        return dict(it.frames[-1].env)
     if name == 'len':
         v = args[0]
         if isinstance(v, (list, tuple, dict, str, set, frozenset)):
